@@ -171,6 +171,21 @@ def family(tier):
                     for ret in ("ref", "value"):
                         cases.append(("kind=%s shape=%s position=2 companions=%s return=%s" % (kind, ns, cat, ret),
                                       ns, kind, 2, cat, ret))
+        # thorough: the full cross product kind x category (the two families meet
+        # in the thunk: traits of the virtual kind and forwarding of the companions)
+        for kind in KINDS:
+            for cat in CATS:
+                for ret in ("int", "value"):
+                    if cat == "int" and ret == "int":
+                        continue
+                    cases.append(("kind=%s shape=s_offset position=0 companions=%s return=%s" % (kind, cat, ret),
+                                  "s_offset", kind, 0, cat, ret))
+        # and kind x shape x position with tracked companions
+        for ns in SHAPES:
+            for kind in KINDS:
+                for pos in (0, 1, 2):
+                    cases.append(("kind=%s shape=%s position=%d companions=uptr_rref return=void" % (kind, ns, pos),
+                                  ns, kind, pos, "uptr_rref", "void"))
     return cases
 
 
